@@ -154,3 +154,25 @@ prop("C05", "c05",
            "against an independent reference verifier; the converse direction is measured only; bounded exploration.",
      note="Trusted: Go standard library crypto used by the reference verifier; the harness' token minting.",
      technique="property-based testing: mutation catalogue + independent reference verifier (only-if direction asserted)")
+
+prop("C12", "c12",
+     "Error values from a grammar (leaves: the eight heimdall error kinds, RedirectError, foreign errors: plain, io.EOF, "
+     "context.DeadlineExceeded, *url.Error, a value-receiver struct error, *cellib.EvalError; combinators: errorchain New/"
+     "NewWithMessage/CausedBy/WithErrorContext, fmt.Errorf %w, errors.Join; depth <= 3) are injected by a probe authenticator "
+     "into a rule without error handlers or with the default handler, with generated status overrides (400-599 per kind), "
+     "verbose on/off and Accept headers (absent, single, weighted lists, wildcards, unsupported); the redirect and "
+     "www_authenticate handlers are exercised with generated targets, codes and realms (prototype and rule-level override). "
+     "Each case runs through the assembled HTTP decision, proxy and Envoy gRPC services. Oracle: (1) never a success status, "
+     "3xx only from a redirect, nothing reaches the upstream; (2) for values containing exactly one kind the configured "
+     "override or the documented default (401/403/502/400/404/500), redirect -> handler code + Location, challenge -> 401 + "
+     "WWW-Authenticate naming the realm; (3) the three entry points agree on status and Location; (4) body empty unless "
+     "verbose, otherwise its content type is one of the supported types the Accept header admits with maximal quality and the "
+     "body parses as that type. Non-trivial: depth >= 2, a foreign error, or a status override; distinct by (error, overrides, Accept).",
+     [dict(run="^TestInjectedErrorsMapToTheirClass$", quick=700, thorough=6000, shards_thorough=10),
+      dict(run="^TestRedirectAndChallengeHandlers$", quick=300, thorough=3000, shards_thorough=6)],
+     ["values mixing several heimdall kinds: only (1), (3), (4) are asserted", "an Accept header admitting no supported type is don't-care",
+      "generated Accept headers avoid overlapping ranges with conflicting weights (library-specific tie breaking)"],
+     level="Randomised generated search over error values x overrides x Accept headers on the three assembled services with a "
+           "reference classification and a differential between entry points; bounded exploration.",
+     note="Trusted: the probe mechanism hands the generated error value to heimdall unchanged.",
+     technique="property-based testing: error grammar + reference status table + differential across entry points")
